@@ -25,17 +25,26 @@ def off : Float := Gen.C19.siderealOffset
 def eps : Float := Gen.C19.poleEps
 
 def f2 (p : Float × Float) : String := s!"{fF p.1} {fF p.2}"
+def nan : Float := 0.0 / 0.0
+/-- `none` (argument outside the domain of arcsin/arccos) is numpy's NaN -/
+def fO (o : Option Float) : String := match o with | some x => fF x | none => fF nan
+def fO2 (ra : Float) (o : Option (Float × Float)) : String :=
+  match o with | some p => f2 p | none => s!"{fF ra} {fF nan}"
 
 def answer (line : String) : String :=
   match tokens line with
   | ["sep", a, b, c, d] =>
-      s!"{fF (angSep (pF a) (pF b) (pF c) (pF d))} {fF (vecAngle (pF a) (pF b) (pF c) (pF d))}"
+      s!"{fO (angSepD (pF a) (pF b) (pF c) (pF d))} {fF (vecAngle (pF a) (pF b) (pF c) (pF d))}"
   | ["sepf", a, b, c, d, f] => fF (angSepFloor (pF a) (pF b) (pF c) (pF d) (some (pF f)))
   | ["azi2ra", a, t] => fF (aziToRa len off (pF a) (pF t))
   | ["hor", a, z, t] => f2 (horToEqu len off (pF a) (pF z) (pF t))
   | ["psi2", sd, sr, p, t] => f2 (psiToDecRa (pF sd) (pF sr) (pF p) (pF t))
-  | ["rot", a, b, c, d, e, f] => f2 (rotateSphericalVector (pF a) (pF b) (pF c) (pF d) (pF e) (pF f))
-  | ["reloc", a, b, c, d, e, f] => f2 (relocate eps (pF a) (pF b) (pF c) (pF d) (pF e) (pF f))
+  | ["rot", a, b, c, d, e, f] =>
+      fO2 (rotateSphericalVector (pF a) (pF b) (pF c) (pF d) (pF e) (pF f)).1
+        (rotateSphericalVectorD (pF a) (pF b) (pF c) (pF d) (pF e) (pF f))
+  | ["reloc", a, b, c, d, e, f] =>
+      fO2 (relocate eps (pF a) (pF b) (pF c) (pF d) (pF e) (pF f)).1
+        (relocateD eps (pF a) (pF b) (pF c) (pF d) (pF e) (pF f))
   | ["psifield", ss, es, ps, fl] =>
       let r := psiField (pairsF (pList pF ss)) (pairsF (pList pF es)) (pairsN (pList pN ps))
         (if fl == "-" then none else some (pF fl))
